@@ -2,6 +2,7 @@
 // validation (TV) evaluator.  See sym.h and DESIGN.md §2.2/§2.3.
 #pragma once
 #include "sym.h"
+#include "frac.h"
 #include <cstdio>
 #include <iostream>
 #include <memory>
@@ -268,6 +269,10 @@ struct Needs
     void merge (const Needs& o) { cls.insert (o.cls.begin (), o.cls.end ()); lits.insert (o.lits.begin (), o.lits.end ()); extra.insert (o.extra.begin (), o.extra.end ()); }
 };
 inline std::map<std::string, Needs>& needsIndex () { static std::map<std::string, Needs> m; return m; }
+// parameter functions (C07): an opaque callee that is a PARAMETER of every emitted definition using it
+// (name -> Lean type, e.g. "gj44" -> "M44 α → M44 α"); printed after the EXTRA_ORDER parameters, in name order.
+// The callee's argument shapes come from a FnRecord registered in fnIndex() under the same name.
+inline std::map<std::string, std::string>& paramFns () { static std::map<std::string, std::string> m; return m; }
 
 static const char* EXTRA_ORDER[] = {"tmin", "tmax", "teps", "tlowest", "sqrt", "sin", "cos", "tan", "acos", "asin", "atan", "exp", "log", "atan2", "pow"};
 inline bool extraIsBinary (const std::string& e) { return e == "atan2" || e == "pow"; }
@@ -337,6 +342,7 @@ struct Emitter
             {
                 auto it = needsIndex ().find (n->s);
                 if (it != needsIndex ().end ()) needs.merge (it->second);
+                if (paramFns ().count (n->s)) needs.extra.insert (n->s);
                 break;
             }
             default: break;
@@ -355,6 +361,7 @@ struct Emitter
     {
         std::string s;
         for (auto* e : EXTRA_ORDER) if (nd.extra.count (e)) s += std::string (" ") + e;
+        for (auto& pf : paramFns ()) if (nd.extra.count (pf.first)) s += " " + pf.first;
         return s;
     }
     std::string callStr (const Node* n)
@@ -518,6 +525,8 @@ struct Emitter
         for (auto* e : EXTRA_ORDER)
             if (needs.extra.count (e))
                 os << " (" << e << " : " << (extraIsConst (e) ? "α" : extraIsBinary (e) ? "α → α → α" : "α → α") << ")";
+        for (auto& pf : paramFns ())
+            if (needs.extra.count (pf.first)) os << " (" << pf.first << " : " << pf.second << ")";
         for (auto& p : r->params) os << " (" << p.name << " : " << (p.shape ? p.shape->lean + " α" : "α") << ")";
         os << " : " << retType () << " :=\n";
         for (auto* n : lets)
@@ -535,12 +544,41 @@ struct Emitter
 
 template <class T> std::vector<T> nativeCall (const std::string& name, const std::vector<T>& args); // main.h
 
+// scalar-type adapters for the evaluator (Frac uses the fixed rational stubs)
+template <class T> struct Sc
+{
+    static T lit (double v) { return T (v); }
+    static T f1 (Op op, T a)
+    {
+        switch (op)
+        {
+            case SQRT: return T (std::sqrt (a)); case SIN: return T (std::sin (a)); case COS: return T (std::cos (a));
+            case TAN: return T (std::tan (a)); case ACOS: return T (std::acos (a)); case ASIN: return T (std::asin (a));
+            case ATAN: return T (std::atan (a)); case EXP: return T (std::exp (a)); default: return T (std::log (a));
+        }
+    }
+    static T f2 (Op op, T a, T b) { return op == ATAN2 ? T (std::atan2 (a, b)) : T (std::pow (a, b)); }
+    static T tmin () { return std::numeric_limits<T>::min (); }
+    static T tmax () { return std::numeric_limits<T>::max (); }
+    static T teps () { return std::numeric_limits<T>::epsilon (); }
+    static T tlowest () { return std::numeric_limits<T>::lowest (); }
+};
+template <> struct Sc<Frac>
+{
+    static Frac lit (double v) { return Frac (v); }
+    static Frac f1 (Op op, Frac a) { return stub1 ((int) op - (int) SQRT, a); }
+    static Frac f2 (Op op, Frac a, Frac b) { return stub2 (op == ATAN2 ? 0 : 1, a, b); }
+    static Frac tmin () { return Frac (1, 1024); }
+    static Frac tmax () { return Frac (1048576, 1); }
+    static Frac teps () { return Frac (1, 64); }
+    static Frac tlowest () { return Frac (-1048576, 1); }
+};
+
 template <class T> struct Evaluator
 {
     std::map<const Node*, T> env;
     std::map<const Node*, T> memo;
-    T tmin = std::numeric_limits<T>::min (), tmax = std::numeric_limits<T>::max (), teps = std::numeric_limits<T>::epsilon (),
-      tlowest = std::numeric_limits<T>::lowest ();
+    T tmin = Sc<T>::tmin (), tmax = Sc<T>::tmax (), teps = Sc<T>::teps (), tlowest = Sc<T>::tlowest ();
 
     T ev (const Node* n)
     {
@@ -555,28 +593,20 @@ template <class T> struct Evaluator
         switch (n->op)
         {
             case VAR: return env.at (n);
-            case LIT: return T (n->lit);
+            case LIT: return Sc<T>::lit (n->lit);
             case ADD: return T (ev (n->k[0]) + ev (n->k[1]));
             case SUB: return T (ev (n->k[0]) - ev (n->k[1]));
             case MUL: return T (ev (n->k[0]) * ev (n->k[1]));
             case DIV: return T (ev (n->k[0]) / ev (n->k[1]));
             case NEG: return T (-ev (n->k[0]));
-            case ABS: { T a = ev (n->k[0]); return (a > T (0)) ? a : T (-a); }
+            case ABS: { T a = ev (n->k[0]); return (a > Sc<T>::lit (0)) ? a : T (-a); }
             case MIN: { T a = ev (n->k[0]), b = ev (n->k[1]); return (b < a) ? b : a; }
             case MAX: { T a = ev (n->k[0]), b = ev (n->k[1]); return (a < b) ? b : a; }
             case CLAMP: { T a = ev (n->k[0]), l = ev (n->k[1]), h = ev (n->k[2]); return (a < l) ? l : ((a > h) ? h : a); }
             case ABSDIFF: { T a = ev (n->k[0]), b = ev (n->k[1]); return (a > b) ? T (a - b) : T (b - a); }
-            case SQRT: return T (std::sqrt (ev (n->k[0])));
-            case SIN: return T (std::sin (ev (n->k[0])));
-            case COS: return T (std::cos (ev (n->k[0])));
-            case TAN: return T (std::tan (ev (n->k[0])));
-            case ACOS: return T (std::acos (ev (n->k[0])));
-            case ASIN: return T (std::asin (ev (n->k[0])));
-            case ATAN: return T (std::atan (ev (n->k[0])));
-            case EXP: return T (std::exp (ev (n->k[0])));
-            case LOG: return T (std::log (ev (n->k[0])));
-            case ATAN2: return T (std::atan2 (ev (n->k[0]), ev (n->k[1])));
-            case POW: return T (std::pow (ev (n->k[0]), ev (n->k[1])));
+            case SQRT: case SIN: case COS: case TAN: case ACOS: case ASIN: case ATAN: case EXP: case LOG:
+                return Sc<T>::f1 (n->op, ev (n->k[0]));
+            case ATAN2: case POW: return Sc<T>::f2 (n->op, ev (n->k[0]), ev (n->k[1]));
             case TMIN: return tmin;
             case TMAX: return tmax;
             case TEPS: return teps;
@@ -592,7 +622,7 @@ template <class T> struct Evaluator
                 return r.at ((size_t) n->lit);
             }
         }
-        return T (0);
+        return Sc<T>::lit (0);
     }
     std::map<const Node*, std::vector<T>> callMemo;
     std::vector<T> call (const Node* n)
